@@ -194,6 +194,23 @@ CLAIMED = {
         "PRNG outputs is not claimed; reproducibility/purity rest on the correspondence.",
         "Lean 4 theorems (invariants by induction over PRNG steps / generator steps, counting) + differential correspondence",
         "DESIGN.md §5 C19"),
+    "C03": (
+        "Kernel-checked theorems for all programs, variable lists (sparse, permuted ids, negative bounds), key subsets and replies: "
+        "C03_text_roundtrip (the CSP description parses back -- with an independent reading of Sugar's input syntax -- to exactly the "
+        "declared variables with their domains, the posted constraints up to 'constant node = literal', and the registered keys in "
+        "deduction mode; pure ASCII), C03_wt_printable (every well-typed tree incl. the two native graph operators with * for None), "
+        "C03_reply_sat / C03_reply_facts (string-level round trips of both reply formats of CspuzSugarInterface.java into sol fields "
+        "of the right variables with the right Python types, arbitrary integers), C03_five_backends (regenerated dispatch table: shared "
+        "printer/parsers, only `sugar` lacks native deduction, entry points), C03_backend_correct, C03_native_deduction, "
+        "C03_plain_sugar (so C01/C02 hold through these backends for a correct external solver), C03_java_loop (the Java deduction "
+        "loop prints exactly the exact facts), C03_solver_exists (hypotheses satisfiable). Tie: the exact string handed to each of "
+        "the five real backend classes (patched run_subprocess / planted fake modules) vs the model; real parsers fed replies from the "
+        "model's formatter.",
+        "Relative to a correct external solver (SolverCorrect). Trusted: Sugar's input syntax and the two wire formats are modelled "
+        "from the documentation and the Java source (no Sugar-family solver exists in the sandbox, the Java cannot be run); "
+        "pycsugar/enigma_csp/cspuz_core assumed to print the same formats; one-operand SUB (only buildable by hand) excluded.",
+        "Lean 4 theorems (printer/parser round trips by induction) + regenerated name/dispatch table + text-level correspondence",
+        "DESIGN.md §5 C03"),
 }
 
 NOT_YET = "machinery for this property is still under construction in this round (model/theorems not yet committed)"
